@@ -2,7 +2,7 @@
 """Run the quick check of each seeded mutant's property with the mutant applied to /repo (reverted straight after).
 usage: mutant_matrix.py [PROP ...]   writes /verif/seeded/RESULTS.json"""
 import json, os, subprocess, sys, time
-os.environ["VERIF_EVIDENCE_DIR"] = "/tmp/verif_mutant_evidence"  # never clobber the real tree's evidence
+os.environ["VERIF_EVIDENCE_DIR"] = os.environ.get("MM_EVIDENCE", "/tmp/verif_mutant_evidence")  # never clobber the real tree's evidence
 SEEDED = "/verif/seeded"
 REPO = os.environ.get("VERIF_REPO", "/repo")  # a scratch clone may stand in, so /repo stays free for other work
 def sh(cmd, cwd=None, timeout=3600):
@@ -10,7 +10,7 @@ def sh(cmd, cwd=None, timeout=3600):
     return p.returncode, p.stdout + p.stderr
 def main():
     only = sys.argv[1:]
-    resf = f"{SEEDED}/RESULTS.json"
+    resf = os.environ.get("MM_RESULTS", f"{SEEDED}/RESULTS.json")
     res = json.load(open(resf)) if os.path.exists(resf) else {}
     rc, o = sh("git status --porcelain -- pyxform", cwd=REPO)
     assert o.strip() == "", f"{REPO}/pyxform not clean"
@@ -19,6 +19,10 @@ def main():
         prop = d.split("_")[0]
         if only and prop not in only and d not in only: continue
         if not os.path.exists(f"/verif/vlib/monitors/{prop}.py"): continue
+        try:
+            if json.load(open(f"{SEEDED}/{d}/meta.json")).get("retired"):
+                res[d] = {"check": prop, "retired": True}; print(d, "RETIRED"); continue
+        except Exception: pass
         rc, o = sh(f"git apply {SEEDED}/{d}/patch.diff", cwd=REPO)
         if rc != 0:
             print(d, "patch does not apply", o[:200]); continue
